@@ -190,12 +190,14 @@ CLAIMED = {
         text="Lean state machine atomGenerate for graph_generate.py (start node search, _add_node with the three permission flags, _fill_static_edges with NetworkX's dfs / "
              "adjacency orders, _next_stochastic_edge / _add_stochastic_connection, _terminate_graph on the live object with the copy swapped back, the Schulz-Zimm draw "
              "map, transitions) replayed on the implementation's recorded random history: node list with stochastic_node, edge list with bond_type, per-element mass list and "
-             "every rng.choice call are compared. Theorems: C18_deterministic, C18_available_edges (an atom's edge lists contain only graph edges leaving its stochastic node "
+             "every rng.choice call are compared. Theorems: C18_bonds_follow_graph (invariant Inv by induction through fillStatic, terminateLoop, stochLoop, outerLoop, for every "
+             "oracle and fuel: every bond of the result joins two generated atoms and carries the bond type of the static edge between their stochastic nodes or of a non-static "
+             "graph edge between them; side condition fillClosed g is executable and evaluated by the driver for every graph of the run), C18_edge_lists, C18_deterministic, C18_available_edges (an atom's edge lists contain only graph edges leaving its stochastic node "
              "of the respective kind; a bond target carries none), C18_pick_in_range. Oracle on every generated graph: whole residues, inter-residue bonds along non-static "
              "graph edges of the same order, tree, to_mol sanitises and is connected, equal seeds give equal graphs.",
-        note="C18_partial: whole residues, tree shape and termination are decided by the oracle and the correspondence, not by theorems. Two defects of the pinned tree "
+        note="C18_partial: that residues are whole, the tree shape and termination are decided by the oracle and the correspondence, not by theorems. Two defects of the pinned tree "
              "(multi-atom end groups truncated; to_mol dropped charges) were repaired by fix: commits. RDKit sanitisation: oracle only.",
-        technique="Lean 4 executable state machine replayed against the code (+ small theorems) + residue/tree oracle",
+        technique="Lean 4 executable state machine replayed against the code + bond invariant proved by induction over the generation loops + residue/tree oracle",
         ref="7/C18"),
     "C19": dict(
         text="Lean model chainPoints / chainProb of mol_prob.py restricted to the property's class (start fragments and their probabilities from get_starting_tokens, the "
